@@ -56,6 +56,7 @@ type goRes struct {
 	P2       []string             `json:"p2"`
 	Leaves   map[string][]leafObs `json:"leaves"`
 	Ast      map[string]string    `json:"ast"`
+	InAug    map[string]bool      `json:"in_augment,omitempty"`
 	Panic    string               `json:"panic,omitempty"`
 }
 
@@ -80,6 +81,7 @@ func runGo(c tcase) (res goRes) {
 	res.ID = c.ID
 	res.Leaves = map[string][]leafObs{}
 	res.Ast = map[string]string{}
+	res.InAug = map[string]bool{}
 	defer func() {
 		if r := recover(); r != nil {
 			res.Panic = fmt.Sprint(r)
@@ -161,20 +163,30 @@ func walkEntry(e *yang.Entry, res *goRes, seen map[*yang.Entry]bool) {
 // fields with a lower-case yang tag).
 func walkAST(m *yang.Module, res *goRes) {
 	var visit func(n yang.Node)
+	inAug := 0
 	visit = func(n yang.Node) {
 		switch s := n.(type) {
 		case *yang.Leaf:
 			if s.Type != nil {
 				res.Ast[yang.Source(s)] = lib.DumpYangType(s.Type.YangType)
+				if inAug > 0 {
+					res.InAug[yang.Source(s)] = true
+				}
 			}
 			return
 		case *yang.LeafList:
 			if s.Type != nil {
 				res.Ast[yang.Source(s)] = lib.DumpYangType(s.Type.YangType)
+				if inAug > 0 {
+					res.InAug[yang.Source(s)] = true
+				}
 			}
 			return
 		case *yang.Value:
 			return
+		case *yang.Augment:
+			inAug++
+			defer func() { inAug-- }()
 		}
 		v := reflect.ValueOf(n)
 		if v.Kind() != reflect.Ptr || v.IsNil() {
@@ -514,8 +526,18 @@ func compare(g goRes, m modelRes) []string {
 	if len(m.TD)+len(m.ID) > 0 {
 		want = append(append(want, m.ID...), m.TD...)
 	} else {
+		// the first error sweep does not see the bodies of augments; their errors are reported
+		// (after the augments are merged) only when that sweep found nothing
+		var inAug []string
 		for _, k := range m.Order {
-			want = append(want, m.Leaves[k].Errs...)
+			if g.InAug[k] {
+				inAug = append(inAug, m.Leaves[k].Errs...)
+			} else {
+				want = append(want, m.Leaves[k].Errs...)
+			}
+		}
+		if len(want) == 0 {
+			want = inAug
 		}
 	}
 	if w, h := canonErrs(asSet(want)), canonErrs(asSet(g.P1)); !sameList(w, h) {
